@@ -700,6 +700,23 @@ fn scen_handshake(ctx: &Ctx, out: &mut Outcome, r: &mut Rng, run_seed: u64) {
         }
         _ => {}
     }
+    // abandoned handshakes of other addresses (a request with a valid token, the challenge never answered): half-open
+    // sessions are not connected clients - the honest client is owed a session whenever fewer clients are CONNECTED
+    // than the limit, however many handshakes others left half-way
+    if r.chance(1, 2) {
+        let n = r.urange(1, 5);
+        let mut challenged = 0;
+        for i in 0..n {
+            let m = mint(r, p.srv.now.as_secs(), p.srv.protocol_id, 600, 200 + i as u64, -1, &[p.saddr], None, &p.srv.key.clone());
+            let x = addr4(7, i as u8, 4200 + i as u16);
+            if p.srv.process(x, &request_bytes(&m.token)).outgoing().is_some() {
+                challenged += 1;
+            }
+        }
+        p.hist.push(format!("{} other addresses started a handshake and abandoned it ({} were challenged)", n, challenged));
+        out.count("handshake.with_abandoned_half_open_sessions_of_others");
+        out.max("handshake.abandoned_half_open_sessions", challenged);
+    }
     // fault phase
     let faulty = variant == "after-faults" || r.chance(1, 3);
     if faulty {
@@ -909,7 +926,10 @@ fn scen_live(ctx: &Ctx, out: &mut Outcome, r: &mut Rng, run_seed: u64) {
     // client sitting in a high slot (lower slots were occupied when it connected and are freed later)
     let limits = r.chance(1, 2);
     let others = if limits { r.urange(1, 4) } else { 0 };
-    let mut p = match Pair::new(r, run_seed, "live", if limits { others + 1 } else { 2 }, tau, 0, 600, dt_max) {
+    // half of the live sessions are established with a short-lived token and outlive it: the token's life time bounds
+    // the handshake, an established session ends through disconnects and timeouts only
+    let life = if r.chance(1, 2) { 600 } else { r.range(5, 9) };
+    let mut p = match Pair::new(r, run_seed, "live", if limits { others + 1 } else { 2 }, tau, 0, life, dt_max) {
         Ok(p) => p,
         Err(e) => return out.inconclusive(&format!("C18 setup: {e}")),
     };
@@ -934,6 +954,7 @@ fn scen_live(ctx: &Ctx, out: &mut Outcome, r: &mut Rng, run_seed: u64) {
     p.pol.guarantee = Some(Duration::from_millis(tau as u64 * 1000 / 2).saturating_sub(ms(250) + dt_max).max(ms(50)));
     p.hist.push(format!("tau {} dt {:?} lossy but live: {:?}", tau, fixed, p.pol.guarantee));
     let end = p.cnow + Duration::from_secs(tau as u64) * 4 + ms(r.range(0, 3000));
+    let end = if life < 600 { end.max(Duration::from_secs(p.cli.minted.expire + 2)) } else { end };
     // limit changes at seeded moments: free some lower slots, lower the limit, raise it again (never above
     // nor necessarily up to the construction value); none of this may end the live session
     let span = (end - p.cnow).as_millis() as u64;
@@ -975,6 +996,9 @@ fn scen_live(ctx: &Ctx, out: &mut Outcome, r: &mut Rng, run_seed: u64) {
         return;
     }
     let ok = p.s_conn && p.c_conn;
+    if ok && life < 600 && p.srv.now.as_secs() > p.cli.minted.expire {
+        out.count("live_sessions_outlived_their_token");
+    }
     if ok {
         out.count("live_sessions_survived");
     } else {
